@@ -21,7 +21,7 @@ Contents
 5. Genuine defects found on the pinned tree, their repair, the one known finding
 6. Limits, honest non-coverage, tooling limits, known false-alarm surface
 7. Interface (commands, exit codes, evidence, known findings, thorough tier)
-8. Validation of the machinery: seven rounds of seeded mutations, controls, eight
+8. Validation of the machinery: eight rounds of seeded mutations, controls, nine
    rounds of behaviour-preserving refactorings; which check catches which change;
    what was missed; false alarms met and how they were removed
 
@@ -111,7 +111,7 @@ on `stream.Merge`, i.e. on the same defect the ownership rule found (F2).
 /verif/evidence/Cnn.json   rewritten by every run
 /verif/reports/            violation reports named in "VIOLATION … replay=<path>" (git-ignored)
 /verif/controls/Cnn/*.diff 121 one-line control edits (tools/gen_controls.py)
-/verif/seeded/*/           400 sub-agent mutations with demonstration tests and meta.json
+/verif/seeded/*/           460 sub-agent mutations with demonstration tests and meta.json
 /verif/refactorings/*/     behaviour-preserving refactorings used as false-alarm tests
 /verif/tools/              baseline.sh, seed_import.sh, seed_confirm.sh, seed_run.sh, ref_run.sh, ref_all.sh, regress.sh,
                            gen_manifest.py, gen_matrix.py, gen_design.py, validate.py
@@ -228,6 +228,28 @@ thorough ≈ 10–20 s per property.
   and channel binding; locks taken on a `sync.Locker` parameter are renamed to
   the caller's mutex (read mode through `RLocker()`), also for an intermediate
   frame; two channel fields set from one value are aliases.
+* **Round-9 additions.** *Decision by cases* (`bycases.go`): a value that is only
+  ever compared with 0 has three observable values; for each (and for the constant
+  flags a forwarder passes) the code after the comparison is walked with every such
+  test decided - used for "steps exactly when compare(k, c.k) OP 0" when the four
+  seeks share one decision-table helper. *Flag-correlated merges*
+  (`feasibleAlternatives`): a value carried to a single exit together with a boolean
+  flag keeps, under a test of the flag, the alternatives that arrive over edges on
+  which the flag has the tested value; the typestate engine already forwards such
+  flag tests per incoming edge, so "inside the arm" rules have a typestate fallback
+  ("every path to here has passed the arm"). *Values across structs*: a field of a
+  struct that a module helper filled in is what the helper stored there
+  (`chanThroughStruct`); embedded by-value structs are left out of access paths
+  (`isPromotedHop`: `l.front` is `l.ends.front`); a func-typed field holding one
+  bound method value resolves to the method, a state-function field to every
+  method ever stored in it (`stateFuncTargets`); a literal handed back by its maker
+  runs under the locks every call site holds (`returnedLiteralLocks`). *Mirror
+  rendering*: comparisons with named boolean constants are rendered as the operand
+  or its negation; a helper that is its own mirror image with two parameters
+  exchanged has its arguments swapped in the dual (`dualSwapParams`).
+  *Must-held lockset rules over whole packages*: no Lock / RLock of a mutex that
+  is certainly held along the static call chain (`no-recursive-lock`), no channel
+  operation / WaitGroup.Wait with a mutex held.
 * **Effects** (`effects.go`). May a function write through a slice/map argument?
   (stores, map updates, copy/append/clear/delete, sort and `slices.*` writers,
   module callees, closures; fix-point).
@@ -325,9 +347,9 @@ make a rule report `violated`/`undecided`/`vacuous`: in round 4 (fresh
 refactorings after three rounds of hardening) 44 of 80 still alarmed at first, so
 the honest expectation for an unseen restructuring of an anchored function is
 "about even" - rounds 5 (46 of 80) and 6 (40 of 80) confirmed it; round 7 (31 of
-80) was better, round 8 (36 of 80, right after thirty new rules) was not. Of the 561 kept
-refactorings (rounds 1-8) 548 are quiet today; 13 (two of round 6, eleven of round 8) still
-alarm and are documented as open in section 8.3. The mirror and
+80) was better, round 8 (36 of 80, right after thirty new rules) and round 9 (40 of 80) were
+not. Of the 641 kept refactorings (rounds 1-9) 625 are quiet today; 16 (two of round 6, seven of
+round 8, seven of round 9) still alarm and are documented as open in section 8.3. The mirror and
 lockstep rules would fire on an asymmetric-but-equivalent rewrite of one twin.
 Refactorings that rename exported API or change a struct's field *types* are
 outside the rename normalisation.
@@ -378,7 +400,7 @@ the clean tree, patch applies and builds, demo fails with the patch, suite
 passes twice with the patch) before it was kept under `/verif/seeded/<id>/`
 (`patch.diff`, `zz_seed_demo_test.go`, `meta.json`), and each was then applied
 to `/repo` itself, checked, and undone (`tools/seed_confirm.sh`, recorded in
-`meta.json: check_against_repo`). 160 kept (40 + 60 + 60).
+`meta.json: check_against_repo`). 460 kept (40 in round 1, 60 in each of rounds 2-8).
 
 * Round 1 (40): all caught by the rules that existed when each seed arrived,
   several of which (`C03.split-halves` rewrite direction, `C19.tail-cleared`
@@ -521,8 +543,47 @@ to `/repo` itself, checked, and undone (`tools/seed_confirm.sh`, recorded in
   `C19.merge-result-in-out`, and `C02.children-one-more` (the C03 rule, for the
   iterator that walks into a dropped child).
 
+* Round 8 (60, after the round-8 refactoring hardening; prompts listed all
+  twenty earlier mutations per property): **42 caught at once, 18 missed** (70%,
+  the best rate so far). (a) *sibling property*: `C09.owner-ctx` (the context
+  rule of C11/C12/C14 - a reader that runs under the caller's context cannot be
+  stopped by Close, and it is the only one who closes the source),
+  `C01.root-replacement`. (b) *a clause the rule's text promised but did not
+  check*: `C18.range-forwards|returns-f-result` (the callback answers
+  sync.Map.Range with f's own answer), `C04.validate-first` on normal returns (no
+  early return above the argument check), `C03.search-cost|compares-only-in-searchNode`
+  (Get / Contains call the comparator nowhere else on their way).
+  (c) *new necessary conditions*: `C16/C17/C20.no-recursive-lock` (must-held
+  lockset along the static call chain: no Lock / RLock of a mutex the goroutine
+  certainly holds - a recursive read lock deadlocks once a writer queues between
+  the two), `C17.no-wait-under-lock`, `C14.no-blocking-under-lock` (no channel
+  operation in `parallel` with a mutex held), `C17.period-formula` (the wait
+  handed to the timer depends on both duration parameters and is built from
+  signed / floating arithmetic only: no unsigned conversion, remainder or bounded
+  integer draw), `C20.armed-interval` (the wait handed to `time.AfterFunc` is the
+  period, plus a draw, minus the jitter and nothing else: no lateness
+  compensation, no `Truncate`), `C18.published-immutable` (no field of an object
+  is written after it was handed to `atomic.Pointer` Store / Swap /
+  CompareAndSwap, a retry loop's fresh object excepted), `C18.lazy-once|panic-safe`
+  (a hand-written once must test a completion mark, or a panicking f becomes a
+  silent zero value for later callers - which is what the `!go1.21` variant
+  `xsync_old.go`, not buildable here, does), `C02/C01.root-replacement` (the old
+  root stays in the tree or has n == 0), `C15.arm-once` (an iterator never writes
+  its not-started sentinel back), `C07.recv-channel-fixed` (a channel field Next
+  receives from is assigned at construction only: the closed channel keeps
+  reporting the end), `C19.total-map-builders` (the loop that fills a result map
+  in xmaps has no exit from its middle), `C12.const-index-guarded` (`in[k]` only
+  under a test that makes `len(in) > k`), `C12.send-failure-exits`.
+  The new rules alarmed on 8 kept refactorings when first run (`growRoot` helper
+  without the caller's `x == t.root` test, `offset` as zero-or-draw phi, the
+  period kept in a small struct or a timer wrapper, a retry loop around the
+  placeholder's CAS, Union / Intersection storing conditionally, an iterator that
+  snapshots eagerly); each was removed by following the helper / the call sites /
+  the stored fields, or by dropping a condition that was not necessary ("every
+  round stores" is not implied by totality).
+
 A rule written after seeing a seed says so above; that is the honest reading of
-"caught": all 400 seeds are reported today; in rounds 2-7, 222 of 360 were
+"caught": all 460 seeds are reported today; in rounds 2-8, 264 of 420 were
 reported by the rules that existed when the seed arrived.
 
 ### 8.2 Controls
@@ -579,6 +640,7 @@ r5='/verif/tools/round5.md'
 r6='/verif/tools/round6.md'
 r7='/verif/tools/round7.md'
 r8='/verif/tools/round8.md'
-doc=doc.replace('ROUND4_PLACEHOLDER', (open(r4).read() if os.path.exists(r4) else '(round 4 results pending)') + '\n' + (open(r5).read() if os.path.exists(r5) else '') + '\n' + (open(r6).read() if os.path.exists(r6) else '') + '\n' + (open(r7).read() if os.path.exists(r7) else '') + '\n' + (open(r8).read() if os.path.exists(r8) else ''))
+r9='/verif/tools/round9.md'
+doc=doc.replace('ROUND4_PLACEHOLDER', (open(r4).read() if os.path.exists(r4) else '(round 4 results pending)') + '\n' + (open(r5).read() if os.path.exists(r5) else '') + '\n' + (open(r6).read() if os.path.exists(r6) else '') + '\n' + (open(r7).read() if os.path.exists(r7) else '') + '\n' + (open(r8).read() if os.path.exists(r8) else '') + '\n' + (open(r9).read() if os.path.exists(r9) else ''))
 open('/verif/DESIGN.md','w').write(doc)
 print(len(doc.splitlines()),'lines')
